@@ -228,10 +228,17 @@ def trace_encode(fx, version, level, boosted, mask_in=None, eci=False, sa_info=N
     except Unknown:
         have = None
     if have != ['segments', 'error', 'version', 'mask', 'eci', 'boost_error', 'sa_info']:
-        if sa_info is not None and (segments is not None or nsegs != 1 or extra or real_write_segment or real):
+        one_seg = None
+        if segments is not None:
+            try:
+                one_seg = list(segments.segments)
+            except Exception:
+                one_seg = None
+        if sa_info is not None and ((segments is not None and (one_seg is None or len(one_seg) != 1)) or nsegs != 1 or real):
             raise Unknown(f'_encode has another interface than the rules drive it through: {have} (and the Structured Append information cannot be handed in from outside)')
         if sa_info is not None:
-            return _trace_sequence_symbol(fx, it, version, level, boosted, mask_in, eci, sa_info, boost_error, lv, md)
+            return _trace_sequence_symbol(fx, it, version, level, boosted, mask_in, eci, sa_info, boost_error, lv, md,
+                                          segment=one_seg[0] if one_seg else None, real_write_segment=real_write_segment, extra=extra)
         # The private entry point was reorganised.  The same symbol is requested through the public entry point `encode`, with
         # segment construction and version search replaced by stand-ins that hand in the rule's segments and version, and
         # the normalisers (decided by C14) replaced by the identity.
@@ -262,7 +269,8 @@ def trace_encode(fx, version, level, boosted, mask_in=None, eci=False, sa_info=N
     return rec, res, dict(buffers=bufs, segments=segs, M0=M0, M1=M1, genv=genv, interp=it)
 
 
-def _trace_sequence_symbol(fx, it, version, level, boosted, mask_in, eci, sa_info, boost_error, lv, md):
+def _trace_sequence_symbol(fx, it, version, level, boosted, mask_in, eci, sa_info, boost_error, lv, md, segment=None, real_write_segment=False,
+                           extra=None):
     """trace_encode for a Structured Append symbol when `_encode` was reorganised: the symbol number sa_info.number of a sequence
     of sa_info.total + 1 symbols is requested through `encode_sequence` (segment construction, version search and parity
     replaced by stand-ins, the normalisers by the identity) and observed at the leaf stages."""
@@ -271,9 +279,21 @@ def _trace_sequence_symbol(fx, it, version, level, boosted, mask_in, eci, sa_inf
                         code_result=lambda n_, sym_: ('CODE',) + tuple(sym_['code'][k_] for k_ in ('matrix', 'version', 'error', 'mask', 'segments')))
 
     def make_segment(chunk, mode=None, encoding=None):
-        return SegModel(md['byte'], 'iso-8859-1')
+        return segment if segment is not None else SegModel(md['byte'], 'iso-8859-1')
 
-    whole = SegmentsModel([SegModel(md['byte'], 'iso-8859-1')])
+    whole = SegmentsModel([segment if segment is not None else SegModel(md['byte'], 'iso-8859-1')])
+    env_ = dict(trace.env)
+    if real_write_segment:
+        env_.pop('write_segment')
+        # the repository's own segment writer runs; the trace still needs to know when the first segment is written
+        real_ws = []
+
+        def write_segment(*a, **k):
+            buf = next((x for x in a if isinstance(x, trace.B)), None)
+            trace.calls.append(('write_segment', tuple(a), dict(k), len(buf) if buf is not None else None))
+            return FuncVal(fx.fn('encoder', 'write_segment'), trace.genv, it)(*a, **k)
+        env_['write_segment'] = write_segment
+    env_.update(extra or {})
 
     def find_version(segments, error, eci=False, micro=None, is_sa=False):
         if segments is whole:       # the message as a whole does not fit one symbol
@@ -284,7 +304,7 @@ def _trace_sequence_symbol(fx, it, version, level, boosted, mask_in, eci, sa_inf
 
     def prepare_data(content, mode, encoding):
         return whole
-    genv = trace.bind(encoder_env(fx.forest, it, **dict(trace.env, make_segment=make_segment, find_version=find_version, prepare_data=prepare_data,
+    genv = trace.bind(encoder_env(fx.forest, it, **dict(env_, make_segment=make_segment, find_version=find_version, prepare_data=prepare_data,
                                               calc_structured_append_parity=lambda content, encoding=None: parity,
                                               normalize_version=lambda version: version, normalize_errorlevel=lambda error, accept_none=False: error,
                                               normalize_mask=lambda mask, is_micro=None: mask, normalize_mode=lambda mode: mode)), it)
